@@ -308,6 +308,16 @@ fn gen_c15(seed: u64, idx: usize, _tier: Tier) -> C15Scenario {
         1 => spec.default_ports = 2,
         _ => {}
     }
+    // half of the listeners that are killed or replaced after a write die at a precise moment: the write has been read
+    // by monorail, and the flush interval is the shipped 500 ms, so the bytes are in a reader's hands, not yet flushed
+    {
+        let mut qrng = Rng::new(script.sched_seed ^ 0x9E1E7);
+        let after_out_death = script.lfaults.iter().any(|f| matches!(f.at, LTrigger::AfterOut { .. }) && matches!(f.action, LAction::Kill | LAction::Restart));
+        if after_out_death && script.lfaults.len() == 1 && qrng.chance(1, 2) {
+            script.quiesce_before_lfaults = true;
+            script.flush_ms = Some(500);
+        }
+    }
     // one listener in six has a target filter value that names no configured target (a completed spelling `app/`,
     // `./app`, a typo, a target of another checkout): the listener then simply has less to show; the run must not care
     let mut listener = listener;
